@@ -1,5 +1,6 @@
 import Spine.Feature
 import Spine.LocalTreeThm
+import Spine.LocalTreeSpec
 /-!
 # C07 — the local device tree is announced faithfully and addressed uniquely
 
@@ -10,29 +11,37 @@ Property theorems only. Models:
   RemoveEntity, NewEntityLocal, GetOrAddFeature, NextFeatureId, AddFunctionType, SetDescriptionString, node-management
   (un)subscription, detailed-discovery read. The reply (`replyEnts`, `replyFeats`), `resolve` (= FeatureByAddress)
   and the notifications are pure functions of the state.
+* SPEC (`Spine/LocalTreeSpec.lean`): what the application declared, as plain maps folded over the trace of API calls
+  and the numbers they returned (`Spec`, `specStep`, `specOf`); `recvNotes` / `expNotes` for notifications.
 * `Spine.Feat` (`Spine/Feature.lean`): GetOrAddFeature / NextFeatureId on one entity as events `lookup`, `create`
-  (two critical sections); flag `recheck` = false: the code as written, true: the repair "look up again under the
-  creation lock".
+  (two critical sections); flag `recheck`. `recheck = true` — the creation looks the feature up again under the
+  lock — **is the member the current tree is** (since `fix:` 694fa73; regenerated fact `Spine.Props.C07Gen`).
+  `recheck = false` is "the code as written" in the statements below: that always means the pinned commit a1767d0.
+  The harness probes the tree and selects the member, so it still tells the truth if the re-check is removed again.
 
 Status.
-PROVED for all histories of the tree model: reply lists exactly the attached entities and their features (clause 1,
-`c07_reply_faithful`, also for a read that overlaps an entity addition or removal: `c07_reply_faithful_held`), a created feature and an added function appear in the reply with the values given
-(`c07_feature_announced`, `c07_function_announced`, `c07_function_first_wins`, `c07_function_client_ignored`), every
-announced address resolves back to that feature (`c07_resolves`), announced addresses are pairwise distinct for
-histories inside the domain (`c07_addresses_unique`), AddEntity / RemoveEntity emit exactly one partial notify per
-subscriber with the entity's features / without features and nothing to other peers (`c07_entity_added_notification`,
+PROVED, history level (`c07_refines`): for EVERY history of API calls the discovery reply computed from the model
+state, read as maps from addresses, equals the SPEC folded over that history — entities, and per (entity, feature
+number) type, role, description and per function the read/write flags of its first addition; inside the domain the
+reply has no duplicate keys, so the maps lose nothing but order. `c07_reply_faithful` is its per-state part (also
+for a read that overlaps an entity addition or removal: `c07_reply_faithful_held`); per-operation effects:
+`c07_feature_announced`, `c07_function_announced`, `c07_function_first_wins`, `c07_function_client_ignored`.
+PROVED for all histories: every announced address resolves back to that feature (`c07_resolves`), announced addresses
+pairwise distinct inside the domain (`c07_addresses_unique`), over any history the partial notifications each peer
+received are exactly one per AddEntity / RemoveEntity performed while it was subscribed, in order, with the entity's
+features / without (`c07_notifications_history`; per step `c07_entity_added_notification`,
 `c07_entity_removed_notification`, `c07_notifications_only_to_subscribers`), feature numbers fresh
 (`c07_ids_fresh_tree`, `c07_fresh_number`), one feature per type and role sequentially
-(`c07_one_feature_per_type_role_sequential`).
-PROVED for every interleaving of any number of calls: numbers never duplicated, both members (`c07_ids_fresh`).
-REFUTED for the code as written (known finding `get-or-add-double-creation`): one feature per type and role / one and
-the same feature under overlapping calls (`c07_one_feature_per_type_role_refuted`, `c07_same_feature_refuted`);
-PARTIAL: holds when no two calls overlap (`c07_one_feature_per_type_role_partial`); PROVED for the repaired member over
-all interleavings (`c07_one_feature_per_type_role`, `c07_same_feature`).
-MISSING: a refinement of the tree model to a history-level specification map (the theorems above are invariants and
-per-operation effects on the model, not "reply = fold of the history"); the harness's SPEC monitor checks exactly that
-on the real code against its own bookkeeping. Domain assumption made explicit (`Op.ok`, `validFrom`): an entity is
-added only while it is not part of the device (the API does not reject a duplicate address).
+(`c07_one_feature_per_type_role_sequential`, `c07_get_or_add_idempotent`).
+PROVED for every interleaving of any number of calls: numbers never duplicated, both members (`c07_ids_fresh`); for the
+current tree's member (`recheck = true`) one feature per type and role and one and the same feature for every caller
+(`c07_one_feature_per_type_role`, `c07_same_feature`).
+For the pinned commit's member (`recheck = false`): REFUTED (`c07_one_feature_per_type_role_refuted`,
+`c07_same_feature_refuted`; finding `get-or-add-double-creation`, recorded as fixed), PARTIAL: holds when no two calls
+overlap (`c07_one_feature_per_type_role_partial`).
+Domain assumption made explicit (`Op.ok`, `validFrom`): an entity is added only while it is not part of the device
+(the API does not reject a duplicate address); needed only for "no duplicate keys", not for `c07_refines`' map equality.
+Not modelled: partial-operation flags; reads overlapping feature or function additions (C17's subject).
 -/
 namespace Spine.Props.C07
 open Spine Spine.LTree
@@ -72,6 +81,50 @@ example : validFrom init exOps ∧ replyEnts (run exOps) = [(0, 0), (2, 2), (1, 
 
 example : (heldRead (run exOps) 1 (.detach 2)).2 =
     [.reply 1 [(0, 0), (2, 2), (1, 1)] (replyFeats (run exOps)), .notify 0 false 2 2 []] := by decide
+
+/-! ## Clause 1 as one statement over histories: the reply equals the SPEC of the history -/
+
+/-- For EVERY history of API calls (no domain assumption): let σ be the SPEC — the maps of what the application
+    declared, folded over the calls and the numbers they returned (`specOf`). Then the model state abstracts to σ, and
+    the discovery reply computed from the model state, read as maps from addresses, is σ restricted to the entities
+    that are part of the device: the entity map gives exactly the attached entities with their type, the feature map
+    gives per (entity, feature number) exactly the declared type, role, description and, per function, the read/write
+    flags of its first addition — nothing more, nothing less. For histories inside the domain (`validFrom`) the
+    reply's entity addresses, feature addresses and the function names of each feature are free of duplicates, so the
+    reply lists are determined by these maps up to order. -/
+theorem c07_refines (ops : List Op) :
+    LTree.abs (run ops) = specOf ops ∧
+    (∀ k, replyEntMap (run ops) k = if (specOf ops).att k then some ((specOf ops).etype k) else none) ∧
+    (∀ k id, replyFeatMap (run ops) k id = if (specOf ops).att k then (specOf ops).feat k id else none) ∧
+    (validFrom init ops →
+      ((replyEnts (run ops)).map (·.1)).Nodup ∧
+      ((replyFeats (run ops)).map fun p => (p.1, p.2.id)).Nodup ∧
+      ∀ k f, (k, f) ∈ replyFeats (run ops) → (f.fns.map (·.fn)).Nodup) := by
+  refine ⟨abs_run ops, ?_, ?_, ?_⟩
+  · intro k; rw [replyEntMap_eq, abs_run]
+  · intro k id; rw [replyFeatMap_eq, abs_run]
+  · intro hv
+    refine ⟨?_, ?_, ?_⟩
+    · have : (replyEnts (run ops)).map (·.1) = (run ops).attached := by
+        simp [replyEnts, List.map_map, Function.comp_def]
+      rw [this]; exact attached_run ops hv
+    · rw [replyFeats_addrs]
+      exact addrs_nodup _ (fun k => ((inv_run ops).1 k).1.1) _ (attached_run ops hv)
+    · intro k f hm
+      exact ((inv_run ops).1 k).2.2 f ((mem_replyFeats _ k f).mp hm).2
+
+/-- non-vacuity: the SPEC of the example history at some points — entity 1 is part of the device again, its feature
+    1 is LoadControl(0)/server with function 0 readable and writable (the second add with other flags did not count),
+    its client feature 2 took no function, entity 2's feature 1 carries the custom description, number 2 of entity 2
+    was consumed by NextFeatureId and is no feature -/
+example : validFrom init exOps ∧ (specOf exOps).att 1 = true ∧ (specOf exOps).att 3 = false ∧
+    ((specOf exOps).feat 1 1).map (fun d => (d.typ, d.role, d.descr, d.ops 0, d.ops 3)) = some (0, 1, 2, some (true, true), none) ∧
+    ((specOf exOps).feat 1 2).map (fun d => (d.typ, d.role, d.ops 3)) = some (0, 0, none) ∧
+    ((specOf exOps).feat 2 1).map (·.descr) = some 1001 ∧ ((specOf exOps).feat 2 2).isNone = true ∧
+    ((specOf exOps).feat 0 0).map (fun d => (d.typ, d.ops 100, d.ops 103)) = some (nmType, some (true, false), some (false, false)) := by
+  refine ⟨?_, by decide, by decide, by rfl, by rfl, by rfl, by rfl, by rfl⟩
+  simp only [exOps, validFrom, Op.ok, and_true, true_and]
+  decide
 
 /-- GetOrAddFeature for a type and role the entity does not have yet: afterwards the reply (if the entity is part of
     the device) lists a feature with the returned number, that type and role, the documented description and no
@@ -202,6 +255,29 @@ example : Inv exSt ∧ exSt.subs = [0, 2] ∧
       [.ucNotify 0, .ucNotify 2, .notify 0 false 1 1 [], .notify 2 false 1 1 []] :=
   ⟨inv_run _, by decide, by decide, by decide⟩
 
+/-- Clause 2 as one statement over histories: over ANY history, the partial detailed-discovery notifications peer p
+    received (`recvNotes`, in order) are exactly those of the SPEC (`expNotes`): one for every AddEntity and every
+    RemoveEntity performed while p was subscribed to node management — subscribed meaning between its subscription
+    call and its unsubscription call (`subdAfter`, no reference to the model's registry) — describing that entity as
+    added with its type and the features it had at that moment (which `c07_refines` identifies with the declared
+    ones), or as removed without features; none for operations performed while p was not subscribed; and their number
+    is the number of such operations. -/
+theorem c07_notifications_history (ops : List Op) (p : Nat) :
+    recvNotes p init ops = expNotes p init false ops ∧
+    (recvNotes p init ops).length = expCount p false ops := by
+  have h := recv_eq_exp p ops init inv_init
+  have h0 : decide (p ∈ init.subs) = false := by simp [init]
+  rw [h0] at h
+  exact ⟨h, by rw [h, expNotes_length]⟩
+
+/-- non-vacuity: peer 0 subscribes, sees entity 1 added and removed, unsubscribes, misses entity 2, subscribes again
+    and sees entity 2 removed; peer 1 never subscribes -/
+def exNotif : List Op :=
+  [.renew 1 1, .feat 1 0 1, .renew 2 2, .sub 0, .attach 1, .addUc 1, .detach 1, .unsub 0, .attach 2, .sub 0, .detach 2]
+example : recvNotes 0 init exNotif =
+      [.notify 0 true 1 1 [⟨1, 0, 1, 2, []⟩], .notify 0 false 1 1 [], .notify 0 false 2 2 []] ∧
+    expCount 0 false exNotif = 3 ∧ recvNotes 1 init exNotif = [] := by decide
+
 /-! ## Clause 3: feature numbers are never reused or duplicated; one feature per type and role -/
 
 /-- Tree model, every history, every entity object: the feature numbers are pairwise distinct and all below the
@@ -222,7 +298,7 @@ theorem c07_fresh_number (s : St) (h : Inv s) (k : Nat) :
   intro typ role hn
   simp [step, entGetOrAdd, hn, upd_same]
 
-/-- Event model, BOTH members (code as written and repaired), every interleaving of any number of GetOrAddFeature and
+/-- Event model, BOTH members (pinned commit and current tree), every interleaving of any number of GetOrAddFeature and
     NextFeatureId calls from any goroutines: feature numbers are never duplicated and stay below the generator. -/
 theorem c07_ids_fresh (recheck : Bool) (evs : List Feat.Ev) : Feat.Fresh (Feat.run recheck evs) :=
   Feat.ids_fresh recheck evs
@@ -242,12 +318,12 @@ theorem c07_get_or_add_idempotent (s : St) (k typ role : Nat) (f : Feat) (hf : f
 
 example : findTR ((run exOps).pool 1) 0 1 = some ⟨1, 0, 1, 2, [⟨0, true, true⟩]⟩ := by decide
 
-/-- REPAIRED member (creation looks up again under the lock), every interleaving of the lookups and creations of any
+/-- CURRENT TREE's member (`recheck = true`: creation looks up again under the lock, 694fa73), every interleaving of the lookups and creations of any
     number of concurrent calls: at most one feature per type and role. -/
 theorem c07_one_feature_per_type_role (evs : List Feat.Ev) : Feat.OnePer (Feat.run true evs) :=
   Feat.c07_one_feature_per_type_role evs
 
-/-- REPAIRED member: asking repeatedly, from any goroutines, for the feature of one type and role yields one and the
+/-- CURRENT TREE's member (`recheck = true`): asking repeatedly, from any goroutines, for the feature of one type and role yields one and the
     same feature (any two calls that were handed features of equal type and role were handed the same feature). -/
 theorem c07_same_feature (evs : List Feat.Ev) (p q : Nat × Feat.F)
     (hp : p ∈ (Feat.run true evs).res) (hq : q ∈ (Feat.run true evs).res)
@@ -258,7 +334,7 @@ example : (Feat.run true [.lookup 1 7 0, .lookup 2 7 0, .create 1, .create 2]).f
     (Feat.run true [.lookup 1 7 0, .lookup 2 7 0, .create 1, .create 2]).res = [(2, ⟨1, 7, 0⟩), (1, ⟨1, 7, 0⟩)] :=
   Feat.repaired_witness
 
-/-- Code AS WRITTEN, PARTIAL: as long as no two GetOrAddFeature calls overlap (every call's lookup and creation are
+/-- Member `recheck = false` (the pinned commit a1767d0), PARTIAL: as long as no two GetOrAddFeature calls overlap (every call's lookup and creation are
     adjacent: events `getOrAdd`, `nextId` only) there is at most one feature per type and role. The excluded region
     is exactly "a second call looks up between another call's lookup and creation". -/
 theorem c07_one_feature_per_type_role_partial (evs : List Feat.Ev)
@@ -267,7 +343,8 @@ theorem c07_one_feature_per_type_role_partial (evs : List Feat.Ev)
 
 example : ∀ e ∈ [Feat.Ev.getOrAdd 1 7 0, .nextId, .getOrAdd 2 7 0], Feat.repaired false e = true := by decide
 
-/-- Code AS WRITTEN, REFUTED (known finding `get-or-add-double-creation`): two goroutines ask for the same type and
+/-- Member `recheck = false` (the pinned commit a1767d0), REFUTED (finding `get-or-add-double-creation`, repaired by
+    694fa73): two goroutines ask for the same type and
     role, both lookups miss, both create — two features of one type and role. -/
 theorem c07_one_feature_per_type_role_refuted :
     ¬ (∀ evs : List Feat.Ev, Feat.OnePer (Feat.run false evs)) := by
@@ -276,7 +353,7 @@ theorem c07_one_feature_per_type_role_refuted :
   rw [Feat.double_creation_witness] at this
   revert this; decide
 
-/-- Code AS WRITTEN, REFUTED: … and the two callers are handed two different features. -/
+/-- Member `recheck = false` (the pinned commit), REFUTED: … and the two callers are handed two different features. -/
 theorem c07_same_feature_refuted :
     ¬ (∀ (evs : List Feat.Ev) (p q : Nat × Feat.F), p ∈ (Feat.run false evs).res → q ∈ (Feat.run false evs).res →
         p.2.typ = q.2.typ → p.2.role = q.2.role → p.2 = q.2) := by
